@@ -15,7 +15,7 @@ Property theorems only; helper lemmas live in Proof/YamlChunked.lean and Proof/Y
 -/
 import SuccinctlyVerif.Proof.YamlKernels
 namespace SV.Props.C16
-open SV SV.Yaml
+open SV SV.YamlK
 
 /-! ### lane lemmas (all 256 byte values) -/
 
